@@ -92,7 +92,7 @@ func C03(c *Ctx) error {
 	}
 	jobs := make([]*job, n)
 	for i := range jobs {
-		o := gen.RouteOpts{SafeOnly: i%3 == 0, TrailingSlash: i%2 == 1, QueryNameClash: i%5 == 2, PathRepeatsBase: i%4 == 1}
+		o := gen.RouteOpts{SafeOnly: i%3 == 0, TrailingSlash: i%2 == 1, QueryNameClash: i%5 == 2, PathRepeatsBase: i%4 == 1, Streaming: i%7 == 3}
 		jobs[i] = &job{req: gen.GenRouteFile(r.Fork(fmt.Sprint("c03-", i)), i, o)}
 		if i%6 == 5 {
 			// a decoy file of ANOTHER package, generated in the same invocation and processed first, whose
